@@ -106,9 +106,12 @@ def build_traces(path, tier, seed):
             p = 1 + (i % 2)
             err = np.asarray(av.calc_step_fn_vals_error(v, pow=p), dtype=float)
             add({"kind": "steperr", "v": enc_seq(v), "pow": p, "out": enc_seq(err)}, {"kind": "steperr", "n": n, "pow": p, "shape": shape, "mean": float(np.mean(v))})
-        ind = int(rng.integers(1, n - 1))
-        pre, post = av.calc_step_fn_steps_vals(v, ind=ind)
-        add({"kind": "levels", "v": enc_seq(v), "ind": ind, "pre": enc(pre), "post": enc(post)}, {"kind": "levels", "n": n, "ind": ind})
+        # split sample: interior, or the first / last sample (one side is then empty: only the other level is stated)
+        ind = [int(rng.integers(1, n - 1)), 0, n - 1, int(rng.integers(1, n - 1))][int(rng.integers(4))]
+        with warnings.catch_warnings():
+            warnings.simplefilter("ignore")
+            pre, post = av.calc_step_fn_steps_vals(v, ind=(ind if i % 2 else np.int64(ind)))
+        add({"kind": "levels", "v": enc_seq(v), "ind": ind, "pre": enc(pre if ind > 0 else 0.0), "post": enc(post if ind < n - 1 else 0.0)}, {"kind": "levels", "n": n, "ind": ind})
     # design spectra
     g = 9.81
     bounds = {"C": [0.1, 0.3, 1.5, 3.0], "D": [0.1, 0.56, 1.5, 3.0], "E": [0.1, 1.0, 1.5, 3.0]}
